@@ -204,6 +204,8 @@ def _reference_invalid(p, names, with_td, vals, sources, dest_expr, fsm, texteq)
     B = fs_atom
     inv = []
     inv.append(z3.And(vals["no_clobber"].t, vals["force"].t))
+    # a block size of 0 cannot be copied with (division by zero in the updater and the block partition): reject, don't panic midway
+    inv.append(z3.And(vals["block_size"].t == 0, z3.Not(vals["no_progress"].t)))
     if sources is None:
         return inv
     if len(sources) == 0:
